@@ -12,6 +12,13 @@ stored value is correct; survivors exit 0; after recovery everything is complete
 task stored before is started again.  Thorough tier: real `jug execute` processes on a file store get SIGKILL."""
 from . import exectrace as X
 
+# hypotheses of this property's theorems that are other properties of the list: their ties are re-run (reduced) by
+# harness/main.py after this module's run(); a failure there is reported as a violation of this property
+HYPOTHESES = {
+    'C05': (0.5, 'dump is all-or-nothing under crashes: what was stored before the crash is complete and readable after it'),
+    'C04': (0.4, 'locks of a dead worker stay held until remove_locks, which frees exactly the locks'),
+}
+
 EVIDENCE = dict(
     level='proof',
     rule='one case = (program, worker configuration, schedule, kill point) -> recorded run + remove_locks + recovery run; '
@@ -22,7 +29,7 @@ EVIDENCE = dict(
 
 
 def o_c13(sc, res):
-    return X.oracle_c13(sc, res) + X.oracle_sound(res) + X.oracle_c02(res.trace) + X.oracle_complete(res)
+    return X.oracle_c13(sc, res) + X.oracle_unexplained_results(sc, res) + X.oracle_sound(res) + X.oracle_c02(res.trace) + X.oracle_complete(res)
 
 
 ORACLES = (o_c13,)
